@@ -77,6 +77,9 @@ package sync
 //@ func (*Syncer).setLocalHead(s, ctx, netHead)
 //@   props C15, C03, C07
 //@   requires [C15,C03] verified-target: verified(netHead)
+//@   ghost sh H := result0 of call Head #0
+//@   ghost sherr error := result1 of call Head #0
+//@   before Add [C03,C07] only-unsynced-targets: called(sh) && (sherr != nil || sh.Height() < netHead.Height()) -- a header the store already holds (or passed) never becomes a pending target: it could not be removed again and would keep the subjective head stale
 //@   before wantSync [C07] target-recorded-before-wakeup: pendingAdds == old(pendingAdds) + 1 -- the sync loop must find the new target when the trigger wakes it
 //@   modifies AP_set, AP_val_Hdr, elems(H), EH_Int, headerRange.headers, headerRange.start, ranges.ranges, $now, ghost:storeAppends, ghost:appendedTop, errNonAdjacent.Head, errNonAdjacent.Attempted, ghost:pendingAdds, ghost:pendingReads
 
